@@ -32,7 +32,7 @@ ASSUMPTIONS = [
     'the stars); a selection is compared as a set of lexicons',
 ]
 
-TEMPLATES = ['*', 'I', 'I:*', 'I:V', '*:V', 'I*', 'I J:*', 'I:V J', 'I:* *:V'] + (
+TEMPLATES = ['*', 'I', 'I:*', 'I:V', '*:V', 'I*', 'I J:*', 'I:V J', 'I:* *:V', 'J:* I', '*:V I'] + (
     ['I J', '* I', 'I:V J:*', 'J I', 'I* J'] if rt.THOROUGH else [])
 
 
